@@ -80,6 +80,11 @@ class Sample:
         }
         """Locations that should be phased."""
 
+        self._insertion_anchors = {
+            pos for pos, op in gene.mutations if op.startswith("ins")
+        }
+        """Bases after which a catalogued insertion is located."""
+
         self.phases: Dict[str, Dict[int, str]] = {}
         """Phasing information."""
 
@@ -739,6 +744,11 @@ class Sample:
                 # the read ends inside the multi-substitution and shows it as far as
                 # it goes: it cannot tell which allele the fragment carries here
                 del phase[pos]
+
+        # a read that ends on the base an insertion is anchored to cannot show the
+        # insertion: its reference base there does not tell which allele it carries
+        if start - 1 in self._insertion_anchors and phase.get(start - 1) == "_":
+            del phase[start - 1]
 
         if self._indel_sites_eqs:  # long-read hack
             for pos, op in self._indel_sites:
